@@ -1,6 +1,7 @@
-/* stream pchk:  Q <k> <r> <N1> <seed> <role 1|2> <pre>     pre = k:r:N1:seed,k:r:N1:seed,... or -
+/* stream pchk:  Q <k> <r> <N1> <seed> <role 1|2 (+10: created with verbosity 2)> <pre> [<post>]     pre, post = k:r:N1:seed,k:r:N1:seed,... or -
  * Earlier sessions `pre` are created, configured (decoder role) and released first; then the target
- * session is created with the given role.  Answer:
+ * session is created with the given role; then the sessions `post` are created and configured and STAY ALIVE while the target's
+ * matrix and claim are read (they are released afterwards).  Answer:
  *   R G0<of_seed before the target> P<status> H<r>,<n>:<rows> LN<claim> X<extra flag> G<of_seed after> */
 #include <stdio.h>
 #include <stdlib.h>
@@ -25,16 +26,27 @@ int main(void)
 	setvbuf(out, NULL, _IOLBF, 0);
 	freopen("/dev/null", "w", stdout);
 	while (fgets(line, sizeof line, stdin)) {
-		long k, r, n1, seed, role; char pre[1 << 15]; of_session_t *s = NULL; of_status_t st; char *p;
-		if (sscanf(line, "Q %ld %ld %ld %ld %ld %s", &k, &r, &n1, &seed, &role, pre) != 6) { fprintf(out, "R BADREQ\n"); continue; }
+		long k, r, n1, seed, role; char pre[1 << 15], post[1 << 15]; of_session_t *s = NULL; of_status_t st; char *p;
+		of_session_t *later[64]; int nlater = 0, verb = 0, nf; unsigned long long g_after;
+		post[0] = '-'; post[1] = 0;
+		nf = sscanf(line, "Q %ld %ld %ld %ld %ld %s %s", &k, &r, &n1, &seed, &role, pre, post);
+		if (nf < 6) { fprintf(out, "R BADREQ\n"); continue; }
+		if (role >= 10) { verb = 2; role -= 10; }
 		for (p = pre; *p && *p != '-'; ) {
 			long a, b, c, d; of_session_t *q = NULL;
 			a = strtol(p, &p, 10); p++; b = strtol(p, &p, 10); p++; c = strtol(p, &p, 10); p++; d = strtol(p, &p, 10); if (*p == ',') p++;
 			of_create_codec_instance(&q, OF_CODEC_LDPC_STAIRCASE_STABLE, OF_DECODER, 0); conf(q, a, b, c, d); of_release_codec_instance(q);
 		}
 		fprintf(out, "R G0%llu", (unsigned long long)of_seed);
-		of_create_codec_instance(&s, OF_CODEC_LDPC_STAIRCASE_STABLE, role == 1 ? OF_ENCODER : OF_DECODER, 0);
+		of_create_codec_instance(&s, OF_CODEC_LDPC_STAIRCASE_STABLE, role == 1 ? OF_ENCODER : OF_DECODER, verb);
 		st = conf(s, k, r, n1, seed);
+		g_after = (unsigned long long)of_seed;	/* the PRNG state the target's configuration left behind */
+		of_verbosity = 0;
+		for (p = post; *p && *p != '-' && nlater < 64; ) {
+			long a, b, c, d; of_session_t *q = NULL;
+			a = strtol(p, &p, 10); p++; b = strtol(p, &p, 10); p++; c = strtol(p, &p, 10); p++; d = strtol(p, &p, 10); if (*p == ',') p++;
+			of_create_codec_instance(&q, OF_CODEC_LDPC_STAIRCASE_STABLE, (nlater & 1) ? OF_ENCODER : OF_DECODER, 0); conf(q, a, b, c, d); later[nlater++] = q;
+		}
 		fprintf(out, " P%d", st);
 		if (st == OF_STATUS_OK) {
 			of_ldpc_staircase_cb_t *cb = (of_ldpc_staircase_cb_t *)s; of_mod2sparse *m = cb->pchk_matrix; int row; bool ln = 0;
@@ -46,8 +58,9 @@ int main(void)
 			of_get_control_parameter(s, OF_CRTL_LDPC_STAIRCASE_IS_LAST_SYMBOL_NULL, &ln, sizeof ln);
 			fprintf(out, " LN%d X%d", ln ? 1 : 0, cb->extra_entries_added_in_pchk ? 1 : 0);
 		}
-		fprintf(out, " G%llu\n", (unsigned long long)of_seed);
+		fprintf(out, " G%llu\n", g_after);
 		of_release_codec_instance(s);
+		while (nlater > 0) of_release_codec_instance(later[--nlater]);
 	}
 	return 0;
 }
